@@ -168,7 +168,7 @@ example :
        [("type".toList, "integer".toList), ("name".toList, "b".toList)],
        [("type".toList, "end repeat".toList)], [("type".toList, "end group".toList)]]
     let els := chainsOfRows "data".toList true survey
-    (okVal (convert "data".toList (entitySub els "data".toList) none
+    (okVal (convert "data".toList (entitySub els "data".toList) []
         [[("dataset".toList, "trees".toList), ("entity_id".toList, "${b}".toList)]] survey)).map
       (fun o => o.nodes.filterMap fun n => n.attrs.lookup "calculate") =
     some [" /data/g/r/b ".toList,
